@@ -401,6 +401,13 @@ fn judge_agreement<F: Float>(q: &Query<F>, r: f64, sets: &[Option<Vec<usize>>; 3
             worst = worst.max((q.d[*i] - r).abs() / (eps_of::<F>() * 3.0 * q.dmax.max(r / 3.0)));
             worst_rel = worst_rel.max((q.d[*i] - r).abs() / (eps_of::<F>() * r));
         }
+        // distances below the underflow floor of the metric (the powers of the coordinate differences
+        // are subnormal or zero in F) carry absolute, not relative, errors: neither the point-level
+        // predicate nor any bound means anything there (stated assumption) - not judged
+        let lacking: Vec<usize> = {
+            let under_only = !lacking.is_empty() && lacking.iter().all(|i| (q.d[*i] - r).abs() <= q.under && q.d[*i].max(r) <= q.under);
+            if under_only { vec![] } else { lacking }
+        };
         if !lacking.is_empty() {
             // "the three kinds agree with one another on every query": the ball tree may not drop
             // points the linear scan returns, however close to the radius they are (its sphere
